@@ -11,10 +11,19 @@
 open Model
 open Conv
 
-(* Which reader the model mirrors: Cur = the shipped parse.rs, Fix = parse.rs with patches/000N-fix-btor2-*.diff applied
-   (Model.parse_*_v, theorems C18_no_crash_fix / C18_accepted_well_typed_fix / C08_rejects_ill_formed_fix).
+(* Which reader the model mirrors: Cur = the shipped parse.rs before the repair series, Fix = parse.rs with
+   patches/0001..0007-fix-btor2-*.diff applied (the state of /repo; Model.parse_*_v, theorems C18_no_crash_fix /
+   C18_accepted_well_typed_fix / C08_rejects_ill_formed_fix), Fix2 = Fix + patches/0009-fix-btor2-ext-operand-bitvector.diff
+   (C08_rejects_ill_formed_fix2; needs the writer of patches/0008, i.e. writer_variant below).
    Shared by the C08, C09 and C18 handlers. *)
 let code_variant = Fix
+
+(* Which writer Model.serialize_named_v mirrors: writer_cur = the shipped serialize.rs.  One flag per prepared patch:
+   w_no_array_alias = patches/0008 (no alias line for an array; goes with code_variant = Fix2),
+   w_input_labels = patches/0010 (bad/constraint labels are not named after inputs),
+   w_last_label = patches/0011 (only the last label that refers to an expression is named after it);
+   writer_fix = all three; a subset is { writer_cur with w_input_labels = true } etc.  Used by the C09 handler. *)
+let writer_variant = writer_cur
 
 let big_coqstr (s : string) : char list =
   let r = ref [] in
